@@ -23,10 +23,10 @@ CLAIMED = {
                 "source. The premise is PROVED by kernel computation over all points/triples for y^2=x^3+7 over F_43, F_79, F_67, and the same "
                 "generic code is run against the Python re-targeted to those curves (all points, all scalars to 2n+1) and on secp256k1 boundary "
                 "scalars against the extracted model, an independent implementation and OpenSSL.",
-        "note": "PARTIAL for secp256k1 itself: the group laws and the primality of n are a hypothesis of the theorems (classical facts whose Coq "
-                "proofs are not installed), not proved here; everything code-shaped (formulas, case split, loop, range checks, encodings) is "
-                "proved. secrets.randbelow is scripted. Trusted: Coq kernel, extraction, harness, OpenSSL as an extra oracle.",
-        "technique": "Coq proof (abstract group theory + kernel-computed small-curve instances) + checked model/code correspondence",
+        "note": "No curve premise is left for secp256k1 (Props/Secp256k1.v, Props/Secp256k1Inst.v: C03_*_secp256k1). Noted while proving the "
+                "generic law: point_add is wrong on points of order two (doubling is tested before P = -P), which no curve of odd order "
+                "such as secp256k1 has (GL/GroupLawBasic.v: padd_order2_wrong). secrets.randbelow/token_bytes/randbits is scripted. Trusted: Coq kernel, extraction, harness, OpenSSL as an extra oracle.",
+        "technique": "Coq proof (abstract group theory, generic Weierstrass group law + primality certificates for secp256k1, kernel-computed small-curve instances) + checked model/code correspondence",
         "design": "DESIGN.md section 8 / C03, section 4.5-4.6",
     },
     "C01": {
@@ -35,10 +35,10 @@ CLAIMED = {
                 "s in [1,n/2], verifies with the library verifier, which accepts exactly the textbook ECDSA equation, r = x(kG) mod n for a "
                 "consumed non-zero draw k, and two signatures sharing r come from draws equal up to sign (no dependence on key/message); DER "
                 "is strict per BIP66 (transcribed), minimal and decodes back for all 1 <= r,s < 2^256; the sighash suffix equals the flag in "
-                "both modes. Premise curve_facts(_x) is proved by computation on three small curves and assumed for secp256k1. Correspondence: "
+                "both modes. Premise curve_facts is PROVED for secp256k1 itself in coq/GL + Props/Secp256k1.v (generic group law of short Weierstrass curves over prime fields, Pocklington primality certificates for p and n, n*G = infinity by a checked slope certificate, square-root facts for p = 3 mod 4; closed under the global context) and by exhaustive kernel computation on three small curves; of curve_facts_x only `G generates every curve point` (point counting) stays a premise for secp256k1. Correspondence: "
                 "scripted randbelow on secp256k1 (boundary keys/digests/draws, digests solved so that s hits n/2, n/2+1, 1, n-1), OpenSSL as "
                 "independent verifier, and the Python re-targeted to the small curves over all (key, digest, nonce).",
-        "note": "PARTIAL for secp256k1: group law/primality are hypotheses (proved on small curves). sha256 arbitrary. The wrapper clause (sig -> sig_verify 'OK' "
+        "note": "The curve premises (group law, primality of p and n, order of G, square roots) are discharged for secp256k1 in Props/Secp256k1.v; only `G generates every curve point` (used by the nonce-collision theorem) stays a premise. sha256 arbitrary. The wrapper clause (sig -> sig_verify 'OK' "
                 "under the compressed and the uncompressed key, both message modes) is proved too, under sec1_facts (square roots mod p). "
                 "Trusted: Coq kernel, extraction, harness, hashlib, OpenSSL as extra oracle.",
         "technique": "Coq proof (group theory + modular arithmetic + DER/BIP66 lemmas) + checked model/code correspondence",
@@ -53,7 +53,7 @@ CLAIMED = {
                 "satisfies the equation; (r, n-s) is accepted iff (r, s) is; the low-S helper returns strict BIP66 DER with the same r and "
                 "the low representative of s. Correspondence: valid signatures with bit flips, range boundaries, s->n-s, digests >= n, "
                 "crafted infinity sums, malformed keys/DER, OpenSSL verdicts on secp256k1; ALL tuples sampled/enumerated on small curves.",
-        "note": "PARTIAL for secp256k1: curve_facts(_x) are hypotheses there (proved by computation on the small curves). sha256 "
+        "note": "curve_facts is discharged for secp256k1 in Props/Secp256k1.v (coq/GL); of curve_facts_x only `G generates every curve point` stays a premise there (used by the malleability theorem). sha256 "
                 "arbitrary. Trusted: Coq kernel, extraction, harness, hashlib, OpenSSL as extra oracle.",
         "technique": "Coq proof (iff with the textbook verification equation, modular arithmetic, DER/BIP66) + checked correspondence",
         "design": "DESIGN.md section 8 / C02",
@@ -71,7 +71,7 @@ CLAIMED = {
                 "addresses made only of Base58 characters, independent reference decoders.",
         "note": "The segwit theorems carry the explicit premise that the address is not also checksum-valid Base58Check (dispatcher "
                 "order; discharged by theorem whenever the address contains 0 or l; otherwise a 2^-32 coincidence for a real hash). 'Valid "
-                "SEC1 key' is relative to C14's sec1_facts (proved on small curves, premise for secp256k1). Reuses the C06/C07/C13/C14 "
+                "SEC1 key' is relative to C14's sec1_facts (proved on small curves and, in Props/Secp256k1.v, for secp256k1). Reuses the C06/C07/C13/C14 "
                 "models. Trusted: Coq kernel, extraction, harness, hashlib.",
         "technique": "Coq proof (composition of the Base58/Bech32/SEC1/script theorems, total characterisation of the dispatcher) + ast-generated constants + correspondence",
         "design": "DESIGN.md section 8 / C08",
@@ -87,7 +87,7 @@ CLAIMED = {
                 "master-key order literal and the HMAC key are regenerated (= Spec). Correspondence: BIP32 vector sets 1-5, seeds 16..64 "
                 "bytes, paths to depth 8 over boundary indices, field mutations of 78-byte payloads, small curves reaching the failure "
                 "branches, independent Python BIP32.",
-        "note": "PARTIAL for secp256k1: curve_facts and sqrt_facts are explicit premises (proved on the small curves). hmac_sha512, "
+        "note": "curve_facts and sqrt_facts are premises of the generic theorems, discharged for secp256k1 in Props/Secp256k1.v (coq/GL) and on the small curves. hmac_sha512, "
                 "sha256, ripemd160 arbitrary with the right output lengths. Paths restricted to ASCII. Trusted: Coq kernel, extraction, "
                 "harness, hashlib/hmac.",
         "technique": "Coq proof (group-homomorphism algebra, refinement to a BIP32 spec, codec accept-iff) + regenerated constants + correspondence",
@@ -166,8 +166,8 @@ CLAIMED = {
                 "literals and byte widths are read from the source by ast (= Spec). Correspondence: official vectors, keys incl. odd-y "
                 "points, messages 0..1024 bytes, every single-bit flip of pk/msg/sig (thorough), boundary r/s, wrong lengths, exhaustive "
                 "sweeps on three small curves, independent Python BIP340 reference.",
-        "note": "PARTIAL for secp256k1: curve_facts, lift_facts (square roots) and cofactor one are explicit premises (proved on the "
-                "small curves); the e = 0 (mod n) deviation needs a SHA-256 preimage to reach on secp256k1 and is reported in the evidence, "
+        "note": "curve_facts and lift_facts (square roots) are discharged for secp256k1 in Props/Secp256k1.v (coq/GL); `cofactor one` (the curve has "
+                "exactly n points) stays an explicit premise there (proved on the small curves); the e = 0 (mod n) deviation needs a SHA-256 preimage to reach on secp256k1 and is reported in the evidence, "
                 "not as a finding. sha256 arbitrary with 32-byte output. Trusted: Coq kernel, extraction, harness, hashlib.",
         "technique": "Coq proof (Schnorr algebra over the abstract group, refinement to a BIP340 spec) + ast-generated constants + correspondence",
         "design": "DESIGN.md section 8 / C12",
@@ -197,8 +197,8 @@ CLAIMED = {
                 "public forms round-trip and the DER bytes equal the RFC 5915 / RFC 5480 encodings written from the RFCs. WIF tables and "
                 "OIDs regenerated from the code (= Spec). Correspondence: structured SEC1 candidates of all lengths 0..70, exhaustive x "
                 "on small curves, WIF corruptions, PEM both ways against OpenSSL (python cryptography).",
-        "note": "PARTIAL: square-root facts (p = 3 mod 4, Euler criterion, no order-2 point) are the explicit premise sec1_facts for "
-                "secp256k1 and are proved by computation for p = 43, 79, 67; base64 is an oracle with the hypothesis decode(encode x) = x; "
+        "note": "The square-root facts (p = 3 mod 4, Euler criterion, no order-2 point) are the premise sec1_facts of the generic theorems; "
+                "proved for secp256k1 in Props/Secp256k1.v (coq/GL/SqrtFacts.v) and by computation for p = 43, 79, 67; base64 is an oracle with the hypothesis decode(encode x) = x; "
                 "OpenSSL interoperability is decided by the correspondence only. Trusted: Coq kernel, extraction, harness, OpenSSL.",
         "technique": "Coq proof (accept-iff with a SEC1 spec, codec round trips, RFC byte equality) + regenerated tables + correspondence",
         "design": "DESIGN.md section 8 / C14",
